@@ -49,6 +49,10 @@ fn build(l: &Logical, h: u32, asyncm: bool, rng: &mut Rng) -> Result<Vec<u8>, St
             arch.set_codec(R::CODECS[rng.usize(0, 3)]);
             let b = arch.save().map_err(e)?;
             arch = if h == 5 || asyncm { Arch::open_async(b) } else { Arch::open_sync(b) }.map_err(e)?;
+            // some of the reader-backed tiles are looked up before the rest is added (a lookup must leave no trace in the output)
+            for id in ids[..split].iter().step_by(3).take(40) {
+                let _ = arch.get(*id).map_err(e)?;
+            }
             ids = ids[split..].to_vec();
         }
         8 => {
@@ -130,6 +134,10 @@ fn build(l: &Logical, h: u32, asyncm: bool, rng: &mut Rng) -> Result<Vec<u8>, St
     if h == 5 && !asyncm {
         // an async-reopened archive can only be written by the async writer; re-home it
         return arch.save().map_err(e);
+    }
+    if h == 1 {
+        // written behind 20 000 bytes of other data: the archive's bytes must not depend on where in the stream it starts
+        return arch.save_behind(20_000).map_err(e);
     }
     arch.save().map_err(e)
 }
@@ -352,7 +360,7 @@ pub fn run(ctx: &mut Ctx) {
         let mat = l.describe();
         let names = [
             "sorted",
-            "reversed",
+            "reversed, written behind a 20 000-byte prefix",
             "shuffled+metadata key order",
             "detours (replace/remove/duplicate adds)",
             "save+reopen midway",
